@@ -3,6 +3,7 @@ package props
 import (
 	"fmt"
 	"runtime"
+	"strings"
 	"sync"
 	"sync/atomic"
 
@@ -193,9 +194,148 @@ func c14OperatorTables(c *run.Ctx, caseNo *int, rep int) {
 	})
 }
 
+type c14Wide struct {
+	F1, F2, F3, F4, F5, F6, F7, F8, F9, F10, F11, F12 float64
+	Name                                              string
+	Tags                                              []string
+}
+
+var c14WideSources = []string{
+	"w.F1 + w.F12 * w.F7 - w.F9",
+	"w.Name + string(w.F11) + w.Tags[0]",
+	"{a1: n, a2: k, a3: n, a4: k, a5: n, a6: k, a7: n, a8: k, a9: n + k, a10: 1, a11: 2, a12: s}.a9 + w.F3",
+	"[w, w][1].F10 + {a1: 1, a2: 2, a3: 3, a4: 4, a5: 5, a6: 6, a7: 7, a8: 8, a9: 9, a10: w}.a10.F2",
+	"ws[0].F4 + ws[1].F12 + len(ws[1].Tags)",
+	"string(w) == string(ws[0]) ? w.F5 : ws[1].F6",
+}
+
+func c14WideEnv() map[string]interface{} {
+	w := c14Wide{1, 2, 3, 4, 5, 6, 7, 8, 9, 10, 11, 12, "wide", []string{"t", "u"}}
+	w2 := c14Wide{21, 22, 23, 24, 25, 26, 27, 28, 29, 30, 31, 32, "other", []string{"v"}}
+	return map[string]interface{}{"n": 3.0, "k": 4.0, "s": "a", "w": w, "ws": []c14Wide{w, w2}}
+}
+
+// zone identifiers carried by time strings; each is new to the process the
+// first time a case uses it
+var c14Zones = strings.Fields(`Africa/Abidjan Africa/Algiers Africa/Cairo Africa/Casablanca Africa/Johannesburg Africa/Lagos Africa/Nairobi Africa/Tunis Africa/Windhoek
+	America/Adak America/Anchorage America/Bogota America/Boise America/Caracas America/Chicago America/Denver America/Detroit America/Halifax America/Havana America/Jamaica
+	America/Juneau America/La_Paz America/Lima America/Los_Angeles America/Managua America/Manaus America/Mexico_City America/Montevideo America/New_York America/Nome America/Panama
+	America/Phoenix America/Regina America/Santiago America/Sao_Paulo America/St_Johns America/Toronto America/Vancouver America/Winnipeg Antarctica/Casey Antarctica/Davis
+	Asia/Almaty Asia/Amman Asia/Baghdad Asia/Baku Asia/Bangkok Asia/Beirut Asia/Colombo Asia/Damascus Asia/Dhaka Asia/Dubai Asia/Hong_Kong Asia/Irkutsk Asia/Jakarta Asia/Jerusalem
+	Asia/Kabul Asia/Karachi Asia/Kathmandu Asia/Kolkata Asia/Kuala_Lumpur Asia/Manila Asia/Novosibirsk Asia/Omsk Asia/Qatar Asia/Riyadh Asia/Seoul Asia/Singapore Asia/Taipei
+	Asia/Tashkent Asia/Tbilisi Asia/Tehran Asia/Tokyo Asia/Vladivostok Asia/Yakutsk Asia/Yerevan Atlantic/Azores Atlantic/Bermuda Atlantic/Canary Atlantic/Reykjavik
+	Australia/Adelaide Australia/Brisbane Australia/Darwin Australia/Hobart Australia/Melbourne Australia/Perth Australia/Sydney Europe/Amsterdam Europe/Athens Europe/Belgrade
+	Europe/Berlin Europe/Brussels Europe/Bucharest Europe/Budapest Europe/Copenhagen Europe/Dublin Europe/Helsinki Europe/Istanbul Europe/Lisbon Europe/London Europe/Madrid
+	Europe/Malta Europe/Minsk Europe/Moscow Europe/Oslo Europe/Paris Europe/Prague Europe/Riga Europe/Rome Europe/Sofia Europe/Stockholm Europe/Tallinn Europe/Vienna Europe/Vilnius
+	Europe/Warsaw Europe/Zurich Indian/Chagos Indian/Maldives Indian/Mauritius Pacific/Apia Pacific/Auckland Pacific/Chatham Pacific/Fiji Pacific/Guam Pacific/Honolulu
+	Pacific/Kiritimati Pacific/Noumea Pacific/Pago_Pago Pacific/Tahiti Pacific/Tongatapu`)
+
+// c14Cold: nothing is evaluated on the shared objects before the goroutines
+// start, so whatever the engine, the compiled expression, the types and the
+// shared run-time environment build lazily is built under concurrency.
+func c14Cold(c *run.Ctx, caseNo *int, rep int, closureBackend bool) {
+	backend := map[bool]string{false: "vm", true: "closure"}[closureBackend]
+	for si, src := range c14WideSources {
+		*caseNo++
+		if !c.Mine(*caseNo) {
+			continue
+		}
+		si, src, no := si, src, *caseNo
+		c.Case(fmt.Sprintf("cold-wide/%s/%d/%d", backend, si, rep), func() {
+			r := c.Rng("cold", no)
+			nG := 16 + r.Intn(49)
+			// expectation from objects of their own
+			cl0, err := c14Engine(closureBackend).Compile(src, c14WideEnv())
+			if err != nil {
+				c.Violation("concurrent-outcome", fmt.Sprintf("%q does not compile: %v", src, err), nil)
+				return
+			}
+			want := outcomeOf(cl0(c14WideEnv()))
+			cl, err := c14Engine(closureBackend).Compile(src, c14WideEnv())
+			if err != nil {
+				c.Violation("concurrent-outcome", fmt.Sprintf("%q does not compile: %v", src, err), nil)
+				return
+			}
+			var env interface{} = c14WideEnv()
+			if venv, cerr := convValEnv(env); cerr == nil && r.Intn(4) != 0 {
+				env = venv // one run-time environment object shared by all goroutines
+			}
+			spins := make([]int, 17)
+			for i := range spins {
+				spins[i] = r.Intn(400)
+			}
+			got := make([]string, nG)
+			c14Run(nG, spins, func(g int) {
+				for j := 0; j < 5; j++ {
+					if o := outcomeOf(cl(env)); o != want && got[g] == "" {
+						got[g] = o
+					}
+				}
+			})
+			c.Count("concurrent_invocations", nG*5)
+			for g, o := range got {
+				if o != "" {
+					c.Violation("concurrent-outcome", fmt.Sprintf("%s: %q first invoked from %d goroutines at once over one shared environment gives %s in goroutine %d; alone it gives %s", backend, src, nG, o, g, want), nil)
+					return
+				}
+			}
+			c.Distinct(fmt.Sprintf("cold-wide/%s/%d/%d", backend, si, nG))
+		})
+	}
+	*caseNo++
+	if !c.Mine(*caseNo) {
+		return
+	}
+	no := *caseNo
+	c.Case(fmt.Sprintf("cold-zones/%s/%d", backend, rep), func() {
+		r := c.Rng("zones", no)
+		nG := 16 + r.Intn(17)
+		perG := 3
+		base := (rep*2 + map[bool]int{false: 0, true: 1}[closureBackend]) * nG * perG
+		cl, err := c14Engine(closureBackend).Compile("strtotime(z) - strtotime(\"2021-03-04 05:06:07 UTC\")", map[string]interface{}{"z": ""})
+		if err != nil {
+			c.Violation("concurrent-outcome", fmt.Sprintf("strtotime(z) does not compile: %v", err), nil)
+			return
+		}
+		zone := func(g, j int) string { return c14Zones[(base+g*perG+j)%len(c14Zones)] }
+		spins := make([]int, 17)
+		for i := range spins {
+			spins[i] = r.Intn(400)
+		}
+		got := make([][]string, nG)
+		c14Run(nG, spins, func(g int) {
+			for j := 0; j < perG; j++ {
+				got[g] = append(got[g], outcomeOf(cl(map[string]interface{}{"z": "2021-03-04 05:06:07 " + zone(g, j)})))
+			}
+			// and a zone some other goroutine is meeting right now
+			got[g] = append(got[g], outcomeOf(cl(map[string]interface{}{"z": "2021-03-04 05:06:07 " + zone((g+1)%nG, 0)})))
+		})
+		c.Count("concurrent_invocations", nG*(perG+1))
+		// the same strings afterwards, one at a time
+		for g := 0; g < nG; g++ {
+			for j := 0; j <= perG; j++ {
+				z := zone(g, j)
+				if j == perG {
+					z = zone((g+1)%nG, 0)
+				}
+				want := outcomeOf(cl(map[string]interface{}{"z": "2021-03-04 05:06:07 " + z}))
+				if got[g][j] != want {
+					c.Violation("concurrent-outcome", fmt.Sprintf("%s: strtotime of a time string with zone %s evaluated concurrently with %d other zone-qualified strings gives %s; alone it gives %s", backend, z, nG*perG, got[g][j], want), nil)
+					return
+				}
+			}
+		}
+		c.Distinct(fmt.Sprintf("cold-zones/%s/%d", backend, nG))
+	})
+}
+
 func runC14(c *run.Ctx) {
 	reps := c.Pick(10, 50)
 	caseNo := 0
+	for rep := 0; rep < reps; rep++ {
+		c14Cold(c, &caseNo, rep, false)
+		c14Cold(c, &caseNo, rep, true)
+	}
 	for rep := 0; rep < reps*3; rep++ {
 		c14OperatorTables(c, &caseNo, rep)
 	}
@@ -336,7 +476,7 @@ func init() {
 		ID: "C14", Run: runC14, Level: "exploration",
 		Rule: "each of 16 programs (mono / poly calls, lazy host and built-in functions, literals incl. time literals through cgo, maps, objects, failing subscripts) compiled once and invoked from 16-64 goroutines x 20 calls with per-call host environments or per-goroutine raw environments; 16-48 goroutines compiling all programs on separate engines, and on one engine after its first compilation; engines with two different user operator tables compiling concurrently; vm and closure compilers; barrier release with PRNG-determined spin offsets; 10 (quick) / 50 (thorough) repetitions; all under the race detector (8 -race workers cover the whole case list, GORACE halt_on_error=0, reports de-duplicated by the set of yae frames); " +
 			"monitor: zero race reports, and every concurrent outcome equals the outcome of the same call made alone beforehand. distinct = (workload, backend, program, goroutine count)",
-		Assume: []string{"the race detector cannot see inside the prebuilt C archive: concurrent strtotime is monitored through outcome equality only", "interleavings are those the Go scheduler produces on this machine"},
+		Assume: []string{"cold families: objects with more than 8 fields and time strings whose zone identifier is new to the process are first evaluated from all goroutines at once (no sequential warm-up on the shared engine, compiled expression, types or environment object)", "the race detector cannot see inside the prebuilt C archive: concurrent strtotime is monitored through outcome equality only", "interleavings are those the Go scheduler produces on this machine"},
 		Builds: []string{"race"}, SanFrac: 1, Workers: 4,
 		MinEvents: 2000, EventKey: "concurrent_invocations",
 	})
